@@ -323,11 +323,11 @@ Proof.
 Qed.
 
 (* soundness of the model checker *)
-Theorem check_safe_sound : forall proto np W, check_safe proto np W = true ->
+Lemma check_safe_inv_sound : forall proto np W I, check_safe_inv proto np W I = true ->
   forall h, safe W (run_history proto h (init_state np)).
 Proof.
-  intros proto np W H h. unfold check_safe in H. apply andb_true_iff in H. destruct H as [Hc Hs].
-  destruct (history_in_inv0 proto np _ Hc h) as (y & Hy & Hrel).
+  intros proto np W I H h. unfold check_safe_inv in H. apply andb_true_iff in H. destruct H as [Hc Hs].
+  destruct (history_in_inv0 proto np I Hc h) as (y & Hy & Hrel).
   apply (asafe_safe W _ y Hrel). unfold inv_safe in Hs. rewrite forallb_forall in Hs. apply Hs. exact Hy.
 Qed.
 
@@ -344,11 +344,11 @@ Proof.
   apply amem_In. specialize (Hcl x Hx). rewrite forallb_forall in Hcl. apply Hcl. exact Hy.
 Qed.
 
-Theorem check_noraise_sound : forall proto np, check_noraise proto np = true ->
+Lemma check_noraise_inv_sound : forall proto np I, check_noraise_inv proto np I = true ->
   forall h, no_raise proto h (init_state np) = true.
 Proof.
-  intros proto np H h. unfold check_noraise in H. apply andb_true_iff in H. destruct H as [Hc Hs].
-  apply (no_raise_from proto np _ Hc Hs h _ (ainit np)).
+  intros proto np I H h. unfold check_noraise_inv in H. apply andb_true_iff in H. destruct H as [Hc Hs].
+  apply (no_raise_from proto np I Hc Hs h _ (ainit np)).
   - unfold inv_closed in Hc. apply andb_true_iff in Hc. apply amem_In. apply Hc.
   - apply init_srel.
 Qed.
@@ -360,12 +360,17 @@ Lemma run_none_counters : forall proto j st, no_raise proto (repeat None j) st =
 Proof.
   intros proto. induction j as [|j IH]; intros st H.
   - simpl. split; [reflexivity|lia].
-  - simpl in H. apply andb_true_iff in H. destruct H as [Hb H].
-    simpl. destruct (IH _ H) as [Hn Hf]. unfold step_attempt in Hn, Hf. rewrite Hb in Hn, Hf. simpl in Hn, Hf.
-    unfold step_attempt at 1 2. rewrite Hb. split; [rewrite Hn; lia|]. intros _.
+  - cbn [repeat no_raise] in H. apply andb_true_iff in H. destruct H as [Hb H].
+    change (run_history proto (repeat None (S j)) st)
+      with (run_history proto (repeat None j) (step_attempt proto st None)).
+    destruct (IH _ H) as [Hn Hf].
+    assert (En : h_next (step_attempt proto st None) = S (h_next st)) by reflexivity.
+    assert (Ef : h_fin (step_attempt proto st None) = h_next st)
+      by (unfold step_attempt; rewrite Hb; reflexivity).
+    split; [rewrite Hn, En; lia|]. intros _.
     destruct j as [|j'].
-    + simpl. lia.
-    + rewrite Hf; lia.
+    + cbn [repeat run_history fold_left]. rewrite Ef. lia.
+    + rewrite Hf, En; lia.
 Qed.
 
 Lemma no_raise_app : forall proto h1 h2 st, no_raise proto (h1 ++ h2) st = true -> no_raise proto h1 st = true.
@@ -374,22 +379,22 @@ Proof.
   simpl in *. apply andb_true_iff in H. destruct H as [Hb H]. rewrite Hb. simpl. eapply IH. exact H.
 Qed.
 
-Theorem single_run_sound : forall proto np W,
-  check_safe proto np W = true -> check_noraise proto np = true ->
+Theorem single_run_sound : forall proto np W I,
+  check_safe_inv proto np W I = true -> check_noraise_inv proto np I = true ->
   forall j c, 0 < j ->
     exists p k, In p W /\
       get Absent (h_fs (run_history proto (repeat None j ++ [Some c]) (init_state np))) p = Complete k /\
       (k = j \/ k = S j).
 Proof.
-  intros proto np W Hs Hr j c Hj.
-  pose proof (check_safe_sound proto np W Hs (repeat None j ++ [Some c])) as Hsafe.
-  pose proof (check_noraise_sound proto np Hr (repeat None j ++ [Some c])) as Hnr.
+  intros proto np W I Hs Hr j c Hj.
+  pose proof (check_safe_inv_sound proto np W I Hs (repeat None j ++ [Some c])) as Hsafe.
+  pose proof (check_noraise_inv_sound proto np I Hr (repeat None j ++ [Some c])) as Hnr.
   apply no_raise_app in Hnr.
   destruct (run_none_counters proto j _ Hnr) as [Hn Hf]. specialize (Hf Hj).
-  unfold run_history in *. rewrite fold_left_app in Hsafe |- *. simpl in Hsafe |- *.
-  set (st := fold_left (step_attempt proto) (repeat None j) (init_state np)) in *.
-  unfold safe in Hsafe. unfold step_attempt in Hsafe at 1 2 4. simpl in Hsafe.
-  simpl in Hn, Hf.
+  unfold run_history, attempt in *. rewrite fold_left_app in Hsafe |- *. cbn [fold_left] in Hsafe |- *.
+  remember (fold_left (step_attempt proto) (repeat None j) (init_state np)) as st eqn:Est. clear Est.
+  cbn [init_state h_next] in Hn, Hf.
+  unfold safe in Hsafe. cbn [step_attempt h_fs h_next h_fin] in Hsafe |- *.
   destruct Hsafe as [H0|(p & k & Hp & Hg & Hk)]; [lia|].
   exists p, k. split; [exact Hp|]. split; [exact Hg|]. lia.
 Qed.
@@ -397,7 +402,8 @@ Qed.
 (* ------------------------------------------------------------------ Part 3: the generated protocols *)
 
 Lemma protocols_checked :
-  forallb (fun np => check_safe (snd np) npaths watched && check_noraise (snd np) npaths) protocols = true.
+  forallb (fun np => check_safe_inv (snd np) npaths watched (reach (snd np) npaths) &&
+                     check_noraise_inv (snd np) npaths (reach (snd np) npaths)) protocols = true.
 Proof. vm_compute. reflexivity. Qed.
 
 Lemma protocols_nonempty : protocols <> [].
@@ -407,14 +413,16 @@ Theorem restart_safe_gen : forall name proto, In (name, proto) protocols ->
   forall h, safe watched (run_history proto h (init_state npaths)).
 Proof.
   intros name proto Hin. pose proof protocols_checked as H. rewrite forallb_forall in H.
-  specialize (H _ Hin). simpl in H. apply andb_true_iff in H. apply check_safe_sound. apply H.
+  specialize (H _ Hin). cbn beta iota delta [snd] in H. apply andb_true_iff in H.
+  apply (check_safe_inv_sound proto npaths watched (reach proto npaths)). apply H.
 Qed.
 
 Theorem never_raises_gen : forall name proto, In (name, proto) protocols ->
   forall h, no_raise proto h (init_state npaths) = true.
 Proof.
   intros name proto Hin. pose proof protocols_checked as H. rewrite forallb_forall in H.
-  specialize (H _ Hin). simpl in H. apply andb_true_iff in H. apply check_noraise_sound. apply H.
+  specialize (H _ Hin). cbn beta iota delta [snd] in H. apply andb_true_iff in H.
+  apply (check_noraise_inv_sound proto npaths (reach proto npaths)). apply H.
 Qed.
 
 Theorem single_run_safe_gen : forall name proto, In (name, proto) protocols ->
@@ -424,7 +432,8 @@ Theorem single_run_safe_gen : forall name proto, In (name, proto) protocols ->
       (k = j \/ k = S j).
 Proof.
   intros name proto Hin. pose proof protocols_checked as H. rewrite forallb_forall in H.
-  specialize (H _ Hin). simpl in H. apply andb_true_iff in H. apply single_run_sound; apply H.
+  specialize (H _ Hin). cbn beta iota delta [snd] in H. apply andb_true_iff in H.
+  apply (single_run_sound proto npaths watched (reach proto npaths)); apply H.
 Qed.
 
 (* safe_b reflects safe (used for the examples and by the harness) *)
@@ -461,4 +470,40 @@ Proof.
              (seq 0 9)) (seq 0 7) = true) by (vm_compute; reflexivity).
   rewrite forallb_forall in H. specialize (H j). rewrite forallb_forall in H.
   apply H; apply in_seq; lia.
+Qed.
+
+(* ------------------------------------------------------------------ serialisation keys *)
+From RV Require Import Gen.DumpKeys.
+
+Lemma fam_covered_sound : forall ws r, fam_covered ws r = true ->
+  forall n k, In k (expand n r) -> In k (keys n ws).
+Proof.
+  intros ws r H n k Hk. unfold keys. apply in_flat_map.
+  destruct r as [s|p off]; simpl in H; apply existsb_exists in H; destruct H as (w & Hw & E).
+  - destruct w as [s'|]; [|discriminate]. apply String.eqb_eq in E. subst s'.
+    exists (FConst s). split; [exact Hw|exact Hk].
+  - destruct w as [|p' off']; [discriminate|]. apply andb_true_iff in E. destruct E as [E1 E2].
+    apply String.eqb_eq in E1. subst p'. apply Nat.leb_le in E2.
+    exists (FIdx p off'). split; [exact Hw|]. simpl in *.
+    apply in_map_iff in Hk. destruct Hk as (i & Hi & Hin). apply in_map_iff. exists i. split; [exact Hi|].
+    apply in_seq in Hin. apply in_seq. lia.
+Qed.
+
+Lemma covers_sound : forall ws rs, covers ws rs = true ->
+  forall n k, In k (keys n rs) -> In k (keys n ws).
+Proof.
+  intros ws rs H n k Hk. unfold covers in H. rewrite forallb_forall in H.
+  unfold keys in Hk. apply in_flat_map in Hk. destruct Hk as (r & Hr & Hk).
+  exact (fam_covered_sound ws r (H r Hr) n k Hk).
+Qed.
+
+Lemma kinds_checked : forallb kind_ok kinds = true.
+Proof. vm_compute. reflexivity. Qed.
+
+Theorem keys_cover_gen : forall kind ver ws rs, In (kind, ver, ws, rs) kinds ->
+  exists rs', rs = Some rs' /\ forall n k, In k (keys n rs') -> In k (keys n ws).
+Proof.
+  intros kind ver ws rs Hin. pose proof kinds_checked as H. rewrite forallb_forall in H.
+  specialize (H _ Hin). unfold kind_ok in H. cbn [fst snd] in H.
+  destruct rs as [rs'|]; [|discriminate]. exists rs'. split; [reflexivity|]. apply covers_sound. exact H.
 Qed.
